@@ -628,9 +628,10 @@ def special_count(spec) -> int:
 class CaseResult:
     def __init__(self):
         self.failures: List[C.Failure] = []
-        self.lines: List[str] = []       # driver requests
-        self.impl: List[str] = []        # what the implementation printed (hex of UTF-8)
-        self.inputs: List[Any] = []
+        # driver requests: (line, kind, expected reply, input); kind "tie": model output must equal the
+        # implementation's; "spec": Lean spec evaluated on the implementation's output; "thm": an instance
+        # of a theorem evaluated on the model
+        self.req: List[Tuple[str, str, str, Any]] = []
 
 
 def hexs(s: str) -> str:
@@ -699,9 +700,9 @@ def eval_case(spec, la, strip: bool, codecs: List[str], want_model: bool = True)
             if out != exp_text:
                 fail("text output differs from the in-order text of the layout tree", exp_text, out, otype="text",
                      stage="text")
-            res.lines.append(tree_line("text", tree))
-            res.impl.append(hexs(out))
-            res.inputs.append({"op": "text", "spec": spec, **cfg})
+            inp = {"spec": spec, **cfg}
+            res.req.append((tree_line("text", tree), "tie", hexs(out), {"op": "text", **inp}))
+            res.req.append((tree_line("spectext", tree), "spec", hexs(out), {"op": "spectext", **inp}))
             text_runs[None] = (out, tree)
         else:
             if not representable(exp_text, codec):
@@ -746,18 +747,19 @@ def eval_case(spec, la, strip: bool, codecs: List[str], want_model: bool = True)
         in_domain = scalar and (legal or (strip and all(is_xml_char(ch) or ord(ch) < 0x20 for s in strings for ch in s)))
         if codec is None:
             same_hierarchy(tree, ident, "xml output")
-            res.lines.append(tree_line("xml", tree, "s" if strip else "k", "-"))
-            res.impl.append(hexs(out))
-            res.inputs.append({"op": "xml", "spec": spec, **cfg})
+            sf = "s" if strip else "k"
+            inp = {"spec": spec, **cfg}
+            res.req.append((tree_line("xml", tree, sf, "-"), "tie", hexs(out), {"op": "xml", **inp}))
+            if in_domain:
+                res.req.append((tree_line("xmlcheck", tree, sf, "-"), "thm", "ok", {"op": "xmlcheck", **inp}))
+                res.req.append((tree_line("parse", tree, sf, hexs(out)), "spec", "ok", {"op": "parse", **inp}))
             chars = xml_text_sink = out
         else:
-            res.lines.append(tree_line("xml", tree, "s" if strip else "k", cps(codec)))
             try:
                 chars = out.decode(codec)
-                res.impl.append(hexs(chars))
-                res.inputs.append({"op": "xml", "spec": spec, "codec": codec, **cfg})
+                res.req.append((tree_line("xml", tree, "s" if strip else "k", cps(codec)), "tie", hexs(chars),
+                                {"op": "xml", "spec": spec, "codec": codec, **cfg}))
             except UnicodeError as e:
-                res.lines.pop()
                 if in_domain:
                     fail("binary sink cannot be decoded with its codec (xml output)", "decodable bytes", str(e),
                          otype="xml", codec=codec, stage="sink")
@@ -948,16 +950,24 @@ def count_nodes(ctx, tree) -> None:
 def flush_model(ctx: C.Ctx, results: List[CaseResult]) -> None:
     if ctx.driver is None:
         return
-    lines, impl, inputs = [], [], []
-    for r in results:
-        lines += r.lines
-        impl += r.impl
-        inputs += r.inputs
-    outs = ctx.driver.ask(lines)
-    for inp, i_out, m_out in zip(inputs, impl, outs):
-        ctx.branch("tie:" + inp["op"])
-        if i_out != m_out:
-            ctx.disagree(inp["op"], inp, first_diff(i_out, m_out), "model differs")
+    reqs = [q for r in results for q in r.req]
+    outs = ctx.driver.ask([q[0] for q in reqs])
+    for (line, kind, exp, inp), got in zip(reqs, outs):
+        ctx.branch(kind + ":" + inp["op"])
+        if got == exp:
+            continue
+        if kind == "tie":
+            ctx.disagree(inp["op"], inp, first_diff(exp, got), "model differs")
+        elif kind == "thm":
+            ctx.disagree(inp["op"], inp, "theorem instance (Lean reader on the model output = skeleton)", got)
+        elif inp["op"] == "spectext":
+            ctx.fail(C.Failure("text output differs from the Lean specification specText of the layout tree",
+                               {k: v for k, v in inp.items() if k != "op"}, first_diff(exp, got), "see expected",
+                               {"stage": "spectext", "otype": "text"}))
+        else:
+            ctx.fail(C.Failure("XML output read by the Lean XML reader is not the skeleton of the layout tree: " + got,
+                               {k: v for k, v in inp.items() if k != "op"}, "ok", got,
+                               {"stage": "leanparse", "otype": "xml"}))
 
 
 def first_diff(a: str, b: str) -> str:
